@@ -190,6 +190,16 @@ fn body(rng: &mut Rng, size_class: usize) -> Vec<u8> {
             let noise: String = (0..n).map(|_| char::from(b"0123456789abcdef \n"[rng.below(18)])).collect();
             doc.replace("</body>", &format!("<pre>{noise}</pre></body>")).replace("</BODY>", &format!("<pre>{noise}</pre></BODY>")).into_bytes()
         }
+        5 => {
+            // 80-350 KB of high-entropy text (inlined base64-like data): a single piece compresses to far more
+            // than 32 KiB, and a single huge token is held back by the HTML stage and released at once
+            let doc = dom::random_doc(rng, true).source();
+            let n = rng.range(80_000, 350_000);
+            let alphabet = b"ABCDEFGHIJKLMNOPQRSTUVWXYZabcdefghijklmnopqrstuvwxyz0123456789+/";
+            let noise: String = (0..n).map(|_| char::from(alphabet[rng.below(64)])).collect();
+            let piece = if rng.coin() { format!("<img src=\"data:image/png;base64,{noise}\">") } else { format!("<pre>{noise}</pre>") };
+            doc.replace("</body>", &format!("{piece}</body>")).replace("</BODY>", &format!("{piece}</BODY>")).into_bytes()
+        }
         _ => {
             // 60-250 KB, highly compressible: a single compressed chunk inflates far beyond 32 KiB
             let doc = dom::random_doc(rng, true).source();
@@ -260,17 +270,18 @@ pub fn run(ctx: &Ctx, _args: &Args) -> i32 {
         for i in 0..(n_bodies / jobs as u64) {
             let size_class = match i % 16 {
                 0 => 0,
-                1..=8 => 1,
-                9..=11 => 2,
-                12 | 13 => 3,
+                1..=7 => 1,
+                8..=10 => 2,
+                11 | 12 => 3,
+                13 => 5,
                 _ => 4,
             };
             let b = body(&mut rng, size_class);
             let body_hex = hex(&b);
             for encoding in ["gzip", "deflate", "br"] {
                 let (level, lgwin) = settings(&mut rng, encoding);
-                if size_class == 4 && encoding == "br" && level == 11 && rng.chance(2, 3) {
-                    continue; // quality 11 on 200 KB is slow; sampled less often
+                if size_class >= 4 && encoding == "br" && level == 11 && rng.chance(if size_class == 5 { 9 } else { 2 }, if size_class == 5 { 10 } else { 3 }) {
+                    continue; // quality 11 on hundreds of KB is slow; sampled less often
                 }
                 let filters = rng.pick(&lists).clone();
                 let compressed_len = encode(&b, encoding, level, lgwin).len();
@@ -281,7 +292,7 @@ pub fn run(ctx: &Ctx, _args: &Args) -> i32 {
                         partitions.push(vec![c]);
                     }
                 }
-                for stride in [1usize, 2, 3, 7, 10, 64, 4096] {
+                for stride in [1usize, 2, 3, 7, 10, 64, 4096, 16384, 49152, 131072] {
                     if stride < compressed_len && (compressed_len / stride) <= 6000 {
                         partitions.push(stride_cuts(compressed_len, stride));
                     }
